@@ -6,7 +6,7 @@
 namespace {
 
 struct GHash { int st = ST_DEAD; size_t len = 0; };
-struct GHmac { int st = ST_DEAD; size_t len = 0; };
+struct GHmac { int st = ST_DEAD; size_t len = 0; size_t lastkey = 0; };
 struct GHkdf { int st = ST_DEAD; size_t cur = 0; bool exhaust = false; };
 struct GPrng { int st = ST_DEAD; uint64_t counter = 1, limit = 32; uint64_t since = 0; bool system = false; };
 
@@ -112,7 +112,8 @@ Op gen_hmac(Ctx &c, GHmac &g, int obj, bool erase_bias) {
     o.dseed = ds(r);
     switch (o.kind) {
     case M_INIT: case M_REINIT:
-        o.a = hmac_keylen(r);
+        o.a = (g.lastkey && r.chance(1, 3)) ? g.lastkey : hmac_keylen(r);
+        g.lastkey = o.a;
         if (o.a == 0 && r.chance(1, 2)) o.flags |= F_NULLPTR;
         g.st = ST_LIVE; g.len = 64; break;
     case M_UPDATE:
@@ -121,7 +122,7 @@ Op gen_hmac(Ctx &c, GHmac &g, int obj, bool erase_bias) {
         o.b = r.below(8);
         if (o.a == 0 && r.chance(1, 2)) o.flags |= F_NULLPTR;
         g.len += o.a; break;
-    case M_FINAL: o.b = r.below(64); g.st = ST_FINAL; break;
+    case M_FINAL: o.b = r.below(128); g.st = ST_FINAL; break;
     case M_FREE: if (r.chance(1, 6)) o.flags |= F_TWICE; g.st = ST_DEAD; break;
     case M_DIRTY: o.a = r.below(3); g.st = ST_DEAD; break;
     }
@@ -229,7 +230,9 @@ std::vector<int> os_script(Ctx &c, bool allow_perm) {
     uint32_t t = r.below(100);
     if (allow_perm && t < 30) {
         static const int P[] = {EIO, ENOSYS, EPERM, EFAULT, EINVAL, ENOENT};
-        s.push_back(P[r.below(6)]);
+        int e = r.chance(1, 2) ? P[r.below(6)] : 1 + (int)r.below(133);   // any errno other than EINTR/EAGAIN is permanent
+        if (e == EINTR || e == EAGAIN) e = EIO;
+        s.push_back(e);
     } else if (allow_perm && t < 38) {
         static const int O[] = {ENOENT, EMFILE, EACCES};
         s.insert(s.begin(), 1000 + O[r.below(3)]); // open() failure (only an event in the /dev/urandom build)
@@ -305,7 +308,7 @@ Op gen_prng(Ctx &c, GPrng &g, int obj, bool erase_bias, bool sys_only) {
             uint64_t reps;
             if (y < 55) reps = left + r.below(3);
             else if (y < 90) reps = 1 + r.below(40);
-            else if (y < 96 || (c.armed != C16 && !(c.armed == C15 && c.thorough))) { static const uint64_t W8[] = {253, 254, 255, 256, 257}; reps = W8[r.below(5)]; }
+            else if (y < 96 || (c.armed != C16 && c.armed != C15) || (c.armed == C15 && !c.thorough && !r.chance(1, 20))) { static const uint64_t W8[] = {253, 254, 255, 256, 257}; reps = W8[r.below(5)]; }
             else { static const uint64_t W16[] = {65533, 65534, 65535, 65536, 65537, 70000}; reps = W16[r.below(6)]; if (!c.thorough && r.chance(2, 3)) reps = 255; }
             if (reps > 70000) reps = 70000;
             if (reps > 0) { o.b = reps - 1; g.counter += reps - 1; }
@@ -401,7 +404,8 @@ int pick_tasks(Rng &r, bool heavy) {
 // C18 baseline: all transient prefixes of length <= 5 over {EINTR, EAGAIN} x 7 terminals
 static const uint32_t TRNG_LONG_N[] = {7, 8, 9, 15, 16, 17, 31, 32, 33, 63, 64, 65, 100, 127, 128, 129, 255, 256, 257, 1000, 4096};
 static const int TRNG_LONG = 21 * 2 * 2; // run length x {EINTR, EAGAIN} x {success, EIO}
-static const int TRNG_BASELINE = 63 * 7 + TRNG_LONG;
+static const int TRNG_ERRNOS = 131 * 2;  // every errno 1..133 except EINTR/EAGAIN as the permanent error, alone and after "EAGAIN EINTR"
+static const int TRNG_BASELINE = 63 * 7 + TRNG_LONG + TRNG_ERRNOS;
 // C16 baseline: all sequences over a 10-letter alphabet
 static uint64_t c16_baseline_count(bool thorough) { return thorough ? 111110ULL : 11110ULL; }
 
@@ -414,7 +418,13 @@ uint64_t baseline_count(const std::string &engine, int armed, bool thorough) {
 static Plan trng_baseline_plan(uint64_t idx) {
     Plan p; p.engine = "trng";
     std::vector<int> s;
-    if (idx >= 63 * 7) { // homogeneous long runs of one transient error: retry caps / counters of any small width show here
+    if (idx >= 63 * 7 + (uint64_t)TRNG_LONG) { // errno sweep: what is not EINTR/EAGAIN must be treated as permanent
+        uint64_t k = idx - 63 * 7 - TRNG_LONG;
+        int e = 1 + (int)(k / 2), n = 0;
+        for (int v = 1; v <= 133; v++) { if (v == EINTR || v == EAGAIN) continue; if (n == (int)(k / 2)) { e = v; break; } n++; }
+        if (k & 1) { s.push_back(EAGAIN); s.push_back(EINTR); }
+        s.push_back(e);
+    } else if (idx >= 63 * 7) { // homogeneous long runs of one transient error: retry caps / counters of any small width show here
         uint64_t k = idx - 63 * 7;
         uint32_t n = TRNG_LONG_N[k / 4];
         for (uint32_t i = 0; i < n; i++) s.push_back((k & 1) ? EAGAIN : EINTR);
@@ -437,7 +447,7 @@ static Plan trng_baseline_plan(uint64_t idx) {
     Op g2 = mk(P_GEN, 0); g2.a = 64; g2.dseed = mix2(idx, 81) | 1; tp.ops.push_back(g2);
     p.tasks.push_back(tp);
     p.seed = idx; p.arena_seed = mix2(idx, 1) | 1; p.paint_seed = mix2(idx, 2) | 1;
-    p.os_stale_errno = (idx & 1); p.os_scribble = (idx & 2) != 0;
+    p.os_stale_errno = (idx & 1); p.os_scribble = (idx & 2) != 0; p.fd_base = (int)(idx % 5);
     return p;
 }
 
@@ -490,7 +500,7 @@ Plan generate_plan(const std::string &engine, int armed, uint64_t seed, bool tho
     if (armed == C17 || armed == C18 || armed == C16) c.faults = r.chance(4, 5);
     p.os_stale_errno = r.chance(1, 3);
     p.os_scribble = r.chance(1, 3);
-    p.fd_base = 3 + (int)r.below(60);
+    p.fd_base = r.chance(1, 3) ? (int)r.below(3) : 3 + (int)r.below(60);   // open() may hand out 0, 1 or 2 when stdio is closed
     if (engine == "mix") p.alloc_fail = r.chance(1, 10);
     for (int ti = 0; ti < ntasks; ti++) {
         TaskPlan tp;
@@ -511,7 +521,6 @@ Plan generate_plan(const std::string &engine, int armed, uint64_t seed, bool tho
                     else if (x < 58) o = gen_hkdf(c, gk[obj], obj, true);
                     else if (x < 78) o = gen_prng(c, gp[obj], obj, true, false);
                     else o = gen_clean(c);
-                    if (o.kind == K_EXPAND && o.a > 600) o.a = o.a % 600;
                     if (o.kind == K_ONESHOT && o.a > 600) o.a = 8161;
                 }
             } else if (engine == "prng") {
